@@ -1234,6 +1234,20 @@ func (e *Entry) ApplyDeviate(deviateOpts ...DeviateOpt) []error {
 			dt, devSpec := od.dt, od.spec
 			switch dt {
 			case DeviationAdd, DeviationReplace:
+				// A property can be given only to a node of a kind that
+				// can have it (RFC 7950 7.6.1, 7.7.1, 7.9.1, 7.10, 7.11).
+				leafish := deviatedNode.Kind == LeafEntry // leaf or leaf-list
+				switch {
+				case len(devSpec.Default) > 0 && !leafish && deviatedNode.Kind != ChoiceEntry:
+					appendErr(fmt.Errorf("tried to deviate default on a %s node", deviatedNode.Kind))
+					continue
+				case devSpec.Mandatory != TSUnset && !deviatedNode.IsLeaf() && deviatedNode.Kind != ChoiceEntry && deviatedNode.Kind != AnyDataEntry && deviatedNode.Kind != AnyXMLEntry:
+					appendErr(fmt.Errorf("tried to deviate mandatory on a %s node", deviatedNode.Kind))
+					continue
+				case devSpec.Units != "" && !leafish:
+					appendErr(fmt.Errorf("tried to deviate units on a %s node", deviatedNode.Kind))
+					continue
+				}
 				if devSpec.Config != TSUnset {
 					deviatedNode.Config = devSpec.Config
 				}
